@@ -69,6 +69,8 @@ def err_kind(e):
         return "NoneReturned"
     if isinstance(e, DeletedObjectError):
         return "Deleted"
+    if isinstance(e, KeyboardInterrupt):
+        return "KeyboardInterrupt"
     for cls, k in ((ZeroDivisionError, "ZeroDiv"), (KeyError, "Key"), (ValueError, "Value"),
                    (TypeError, "Type"), (NameError, "Name"), (AttributeError, "Attribute"),
                    (SyntaxError, "Syntax"), (AssertionError, "Assertion"), (RuntimeError, "Runtime"),
